@@ -6610,10 +6610,10 @@ ZSTD_copySequencesToSeqStoreExplicitBlockDelim(ZSTD_CCtx* cctx,
 
     if (cctx->cdict) {
         dictSize = (U32)cctx->cdict->dictContentSize;
-    } else if (cctx->prefixDict.dict) {
-        dictSize = (U32)cctx->prefixDict.dictSize;
     } else {
-        dictSize = 0;
+        /* a prefix is single-use : cctx->prefixDict is already cleared when the frame starts,
+         * its size is what the frame start recorded */
+        dictSize = (U32)cctx->dictContentSize;
     }
     ZSTD_memcpy(updatedRepcodes.rep, cctx->blockState.prevCBlock->rep, sizeof(repcodes_t));
     for (; idx < inSeqsSize && (inSeqs[idx].matchLength != 0 || inSeqs[idx].offset != 0); ++idx) {
@@ -6700,10 +6700,10 @@ ZSTD_copySequencesToSeqStoreNoBlockDelim(ZSTD_CCtx* cctx, ZSTD_sequencePosition*
 
     if (cctx->cdict) {
         dictSize = cctx->cdict->dictContentSize;
-    } else if (cctx->prefixDict.dict) {
-        dictSize = cctx->prefixDict.dictSize;
     } else {
-        dictSize = 0;
+        /* a prefix is single-use : cctx->prefixDict is already cleared when the frame starts,
+         * its size is what the frame start recorded */
+        dictSize = cctx->dictContentSize;
     }
     DEBUGLOG(5, "ZSTD_copySequencesToSeqStoreNoBlockDelim: idx: %u PIS: %u blockSize: %zu", idx, startPosInSequence, blockSize);
     DEBUGLOG(5, "Start seq: idx: %u (of: %u ml: %u ll: %u)", idx, inSeqs[idx].offset, inSeqs[idx].matchLength, inSeqs[idx].litLength);
